@@ -79,11 +79,14 @@ _QUANT = ('star', 'plus', 'opt')
 
 
 def _has_quant(x):
-    return isinstance(x, list) and ((len(x) == 2 and x[0] in ('star', 'plus')) or any(_has_quant(y) for y in x))
+    # a repetition, or an alternation (whose branches may overlap: (.|.)* backtracks like (.*)* does)
+    return isinstance(x, list) and ((len(x) == 2 and x[0] in ('star', 'plus')) or (len(x) == 3 and x[0] == 'alt')
+                                    or any(_has_quant(y) for y in x))
 
 
 def redos_prone(x):
-    """does the case hold a regex AST with a quantifier over something that itself repeats ((a*)+, ((.)+)*, (a?)*)?
+    """does the case hold a regex AST with a quantifier over something that itself repeats or branches ((a*)+, ((.)+)*,
+    (a?)*, (.|.)*)?
     Python's backtracking matcher can take exponential time on those - on the unchanged code as well.  Such a case that
     does not come back is no observation about vakt (the model's derivative matcher always terminates)"""
     if isinstance(x, dict):
